@@ -14,6 +14,7 @@ func init() {
 	register(&Prop{ID: "C04", Run: runC04,
 		Technique: "static analysis: decision tables read off edge-dominance condition sets (go/ssa), must-pass-through ordering, value-flow on returns",
 		Decided: []string{
+			"a node that is running when a stop reaches it is marked canceled on every path through the node's signal routine, whether or not its process exists yet (C04.cancel-mark); the polling loop is left only under the end-of-run test or the cancel flag (C04.outcome-after-completion)",
 			"Scheduler.lastError and the other lock-protected run state are written with their mutex held everywhere (C08.state-lock, shared)",
 			"Scheduler.Status returns each outcome constant exactly under the oracle's conditions (canceled∧¬allSucceeded / ¬started / running / lastError!=nil / else success) (C04.status-table)",
 			"isSucceed returns true only after all nodes were seen and skips only finished/skipped nodes (C04.succeed-table)",
@@ -39,10 +40,12 @@ func runC04(e *Env) {
 	c04SucceedTable(e, s)
 	c04ErrorPairing(e, s)
 	c04Handlers(e, s)
+	c05CancelMark(e, s, "C04.cancel-mark")
 	c05SignalFanout(e, s) // `canceled iff stopped`: every accepted stop sets the flag the outcome is read from
 	c04PrecondFirst(e, s)
 	c04HandlerStatus(e, s)
-	cLockDiscipline(e) // lastError, which decides failed vs. succeeded, is written under the scheduler's mutex everywhere
+	cRunToCompletion(e, s, "C04.outcome-after-completion") // the outcome and the handlers are chosen from final states only
+	cLockDiscipline(e)                                     // lastError, which decides failed vs. succeeded, is written under the scheduler's mutex everywhere
 }
 
 func calleeIs(v ssa.Value, suffix string) bool {
@@ -943,23 +946,57 @@ func agentOrdered(e *Env, guardName string, guard func([]ir.NLit) bool, apis []s
 	if fn == nil {
 		return
 	}
-	for _, f := range ir.WithClosures(fn) {
+	// Run and the helpers of the agent package only it calls (`Run` = `setup` + `execute`):
+	// a call of such a helper is not itself an effect site, its body is looked at with the
+	// call's conditions (DCS carries the call-site context)
+	body := e.inlinedSet(fn, nil)
+	var hosts []*ssa.Function
+	for _, g := range sortedFns(body) {
+		if g == fn || (a.inPkg(g) && g.Parent() == nil) {
+			hosts = append(hosts, ir.WithClosures(g)...)
+		}
+	}
+	seenHost := map[*ssa.Function]bool{}
+	for _, f := range hosts {
+		if seenHost[f] {
+			continue
+		}
+		seenHost[f] = true
 		for _, ci := range ir.CallsIn(f, func(c *ssa.CallCommon) bool { return len(a.Does(c, apis)) > 0 }) {
+			if g := ci.Common().StaticCallee(); g != nil && g != fn && body[g] && a.inPkg(g) && g.Parent() == nil {
+				if _, plain := ci.(*ssa.Call); plain {
+					continue // examined inside
+				}
+			}
 			site := ssa.Instruction(ci)
 			host := f
-			for host != fn {
-				var mcSite ssa.Instruction
-				for _, b := range host.Parent().Blocks {
-					for _, in := range b.Instrs {
-						if mc, ok := in.(*ssa.MakeClosure); ok && mc.Fn == host {
-							mcSite = mc
+			for d := 0; d < 6; d++ {
+				if host.Parent() != nil {
+					// a closure: the place it is created at
+					var mcSite ssa.Instruction
+					for _, b := range host.Parent().Blocks {
+						for _, in := range b.Instrs {
+							if mc, ok := in.(*ssa.MakeClosure); ok && mc.Fn == host {
+								mcSite = mc
+							}
 						}
 					}
+					if mcSite == nil {
+						break
+					}
+					site, host = mcSite, host.Parent()
+					continue
 				}
-				if mcSite == nil {
+				// a helper that is deferred or started with go (`defer a.closeHistory()`): the
+				// conditions are those of the defer / go statement (a plain call is followed by DCS itself)
+				us := ir.UniqueSite(host)
+				if host == fn || us == nil {
 					break
 				}
-				site, host = mcSite, host.Parent()
+				if _, plain := us.(*ssa.Call); plain {
+					break
+				}
+				site, host = us, us.Parent()
 			}
 			lits := e.DCS(site)
 			via := ""
@@ -972,9 +1009,19 @@ func agentOrdered(e *Env, guardName string, guard func([]ir.NLit) bool, apis []s
 			// is a disjunction no single dominating edge carries)
 			accepted := func(l []ir.NLit) bool { return guard(l) || (allow != nil && allow(l)) }
 			okSite := accepted(lits)
+			// a site inside one of Run's helpers: the ways of reaching the helper's call in Run
+			top := site
+			for d := 0; d < 4 && top.Parent() != fn; d++ {
+				us := ir.UniqueSite(top.Parent())
+				if us == nil {
+					break
+				}
+				top = us
+			}
 			if !okSite {
 				okSite = true
-				for _, way := range e.waysTo(site) {
+				for _, way := range e.waysTo(top) {
+					way = append(append([]ir.NLit{}, way...), lits...)
 					if accepted(way) {
 						continue
 					}
